@@ -4,6 +4,13 @@
 set -e
 cd "$(dirname "$0")"
 mkdir -p run evidence replays
+python3 - <<'PY'
+import os, importlib.machinery, importlib.util
+loader = importlib.machinery.SourceFileLoader("chk", os.path.abspath("check"))
+spec = importlib.util.spec_from_loader("chk", loader)
+m = importlib.util.module_from_spec(spec); loader.exec_module(m)
+m.gen_coqproject()
+PY
 cd coq
 coq_makefile -f _CoqProject -o Makefile
 timeout 3000 make -j16
@@ -17,6 +24,7 @@ loader = importlib.machinery.SourceFileLoader("chk", os.path.abspath("check"))
 spec = importlib.util.spec_from_loader("chk", loader)
 m = importlib.util.module_from_spec(spec); loader.exec_module(m)
 wd = os.path.join(m.RUN, "setup"); os.makedirs(wd, exist_ok=True)
-rc, out, _ = m.go_build(wd)
-print("driver warm-up build:", "ok" if rc == 0 else out[-2000:])
+for prop, pdef in sorted(m.registry.PROPS.items()):
+    rc, out, _ = m.go_build(wd, prop, pdef, pdef.get("goflags", []))
+    print("driver warm-up build", prop, ":", "ok" if rc == 0 else out[-2000:])
 PY
